@@ -75,6 +75,8 @@ func main() {
 	verif := flag.String("verif", "", "verif directory (default: parent of the binary's dir)")
 	child := flag.String("child-variant", "", "internal: run one build variant and print JSON")
 	list := flag.Bool("list", false, "print every obligation")
+	childSelf := flag.Bool("child-selftest", false, "internal: run the property on -repo and print failing obligations as JSON")
+	noSelf := flag.Bool("no-selftest", false, "thorough tier without the checker self-test")
 	flag.Parse()
 	repoDir = *repo
 	if *tier == "" {
@@ -165,6 +167,10 @@ func main() {
 	}
 	start := time.Now()
 
+	if *childSelf {
+		childSelfTest(spec)
+		return
+	}
 	if *child != "" {
 		var v variant
 		for _, x := range variants {
@@ -221,6 +227,9 @@ func main() {
 			}
 			res.Reports = append(res.Reports, vr)
 		}
+	}
+	if *tier == "thorough" && !*noSelf {
+		res.SelfTest, res.SelfNotes = runSelfTest(*verif, spec.ID)
 	}
 	if *list {
 		for _, rp := range res.Reports {
